@@ -126,8 +126,16 @@ Fixpoint ltrace (act : bool) (s : lstate) (ops : list lop) : list (bool * nat) :
 Definition lop_of (z : Z) : lop :=
   match z with 0 => LForward | 1 => LCalibrate | 2 => LFreeze | 3 => LMove | 4 => LCopy | _ => LReload end%Z.
 Definition fe_eqb (a b : bool * nat) : bool := Bool.eqb (fst a) (fst b) && Nat.eqb (snd a) (snd b).
-(* a case: activations quantized?, the history, and per step what was observed: (all quantized modules
-   frozen?, class of the outputs on the fixed probe inputs, numbered by first appearance) *)
+(* observed trace vs model trace: the frozen flags agree at every step, and whenever the model says the outputs cannot
+   have changed (same epoch as at the previous step) the observed output class is the previous one.  (A calibration
+   pass MAY leave the outputs on the probe batches unchanged, e.g. in bfloat16: that direction is not demanded.) *)
+Fixpoint trace_ok (prev_m prev_o : nat) (m : list (bool * nat)) (o : list (bool * nat)) : bool :=
+  match m, o with
+  | [], [] => true
+  | (fm, em) :: m', (fo, co) :: o' =>
+    Bool.eqb fm fo && (if Nat.eqb em prev_m then Nat.eqb co prev_o else true) && trace_ok em co m' o'
+  | _, _ => false
+  end.
 Definition chk_life (c : bool * list Z * list (bool * nat)) : bool :=
   let '(act, ops, observed) := c in
-  list_eqb fe_eqb (ltrace act {| l_frozen := false; l_epoch := 0 |} (map lop_of ops)) observed.
+  trace_ok 0 0 (ltrace act {| l_frozen := false; l_epoch := 0 |} (map lop_of ops)) observed.
